@@ -62,6 +62,7 @@ def run(ctx):
             t = [rng.choice(pool) for _ in range(3)]
             check_pair(ctx, name, lib, t, [res[x] for x in t], batch, full, pipe)
         full.run()
+        variant_step(ctx, name, lib, pipe)
         pipe.run()
     full.run()
     pipe.run()
@@ -162,10 +163,46 @@ def pipeline_step(ctx, name, lib, parts, sep, pipe):
     P.sum_oracle(ctx, name, info, '.'.join(parts), mix, Ts)
 
 
+def variant_step(ctx, name, lib, pipe):
+    """The late failure stages of `Estimate` (descriptor outside the uncertainty basis → ValueError; empty common range →
+    AssertionError) are reached by no shipped library: a variant of the library built through the real constructor reaches them,
+    and the failure clause of PIPE_mixture_failure is run on it — single molecules and pairs from the molecules already tried."""
+    if ctx.time_left() < 90:
+        return
+    seed = ctx.rng.randrange(2 ** 32)
+    mols = sorted(x for (n_, x), o in pipe.memo.items() if n_ == name and 'ok' in o and '.' not in x)
+    v = P.variant_library(name, lib, seed, pipe.memo)
+    if v is None:
+        ctx.count('pipe_variant_not_built')
+        return
+    lib2, what = v
+    vname = name + '#variant'
+    variant = {'base': name, 'seed': seed, 'molecules': mols}
+    info, Ts, _ = pipe.open(vname, lib2, variant=variant)
+    ctx.count('pipe_variant_libraries')
+    pairs = list(itertools.product(mols, mols))
+    ctx.rng.shuffle(pairs)
+    # pairs whose parts carry the two descriptors with disjoint ranges / the descriptor cut from the basis first
+    def score(p):
+        ds = [set(pipe.memo[(name, x)]['counts']) for x in p]
+        dj = what['disjoint'] or [None, None]
+        return -((dj[0] in ds[0]) + (dj[1] in ds[1]) + (what['cut'] in ds[0] | ds[1]))
+    pairs.sort(key=score)
+    for a, b in pairs[:ctx.n(12, 120)]:
+        outs = [pipe.add(vname, lib2, a), pipe.add(vname, lib2, b)]
+        mix = pipe.add(vname, lib2, a + '.' + b)
+        ctx.count('pipe_variant_mixtures')
+        P.mixture_oracle(ctx, vname, info, [a, b], outs, mix, Ts, variant=variant)
+        for x, o in ((a, outs[0]), (b, outs[1]), (a + '.' + b, mix)):
+            P.variant_outcome_oracle(ctx, vname, info, x, o, what, Ts, variant)
+            P.sum_oracle(ctx, vname, info, x, o, Ts, variant=variant)
+
+
 def replay(ctx, rec):
+    r = P.replay_record(ctx, rec)
+    if r is not None:
+        return r
     inp = rec.get('input', rec)
-    if inp.get('pipeline'):
-        return P.replay(ctx, inp)
     before = len(ctx.violations)
     lib = dict(S.load_schemes())[inp['scheme']]
     check_pair(ctx, inp['scheme'], lib, inp['parts'], [S.impl_descriptors(lib, p) for p in inp['parts']], [])
